@@ -257,6 +257,16 @@ Theorem C14_rebin_int_path_is_truncation : forall t a b : Q, 0 <= Qnum t < Zpos 
   expand_int_path t a b = lin (ops_elem DInt) t a b.
 Proof. exact int_path_is_truncation. Qed.
 Print Assumptions C14_rebin_int_path_is_truncation.
+(* ... and the formula exactly as written in rebin.py, at the loop counter i and m = d[k]//d0[k] (GENERATED),
+   is the one M evaluates at the weight p - fp in lowest terms, for every admissible extent d = d0*mm *)
+Theorem C14_rebin_int_path_as_written : forall d0 mm i a b, 0 < d0 -> 0 < mm -> 0 <= i ->
+  let d := d0 * mm in
+  let m := rebin_expand_m d0 d in
+  let w := Qred (inject_Z (rebin_expand_p_num d0 d i) / inject_Z (rebin_expand_p_den d0 d i)
+                 - inject_Z (rebin_expand_fp d0 d i)) in
+  expand_int_path (i # Z.to_pos m) a b = expand_int_path w a b.
+Proof. exact int_path_as_written. Qed.
+Print Assumptions C14_rebin_int_path_as_written.
 Theorem C14_rebin_ops_agree : forall k,
   ops_agree (ops_gen k) (ops_elem k) /\ ops_agree (ops_lift (ops_gen k)) (ops_lift (ops_elem k)) /\
   ops_agree (ops_lift (ops_lift (ops_gen k))) (ops_lift (ops_lift (ops_elem k))).
